@@ -317,6 +317,39 @@ def gen(ctx):
     # --- buffer reuse: the CA certificate buffer is reloaded in place with a same-length certificate of another name and key
     for order in ("12", "21", "1212", "2121", "1122", "1", "2", "12121212"):
         add("reusebuf %s" % order, "reusebuf:%s" % ("alternating" if len(order) > 1 else "single"))
+    # --- wave 5: certificate lists by index / last / count
+    for n in (0, 1, 2, 5):
+        for bad in [-1] + list(range(n)):
+            for idx in (-1, 0, 1, n - 1, n, n + 3):
+                add("certsidx %d %d %d" % (n, bad, idx), "certsidx:n%d:%s:%s" % (min(n, 2), "clean" if bad < 0 else ("junk-before" if bad <= idx else "junk-after"), "in" if 0 <= idx < n else "out"))
+    # x509_crl_check: version, update window around the clock (and 2^31 / 2^32 away), extension kinds
+    for version in (-1, 0, 1, 2):
+        for exts in ("-", "crlnum.0", "aki.0", "ian.0", "aia.0", "delta.0", "idp.1", "crlnum.1,aki.1,fcrl.0", "crlnum.0,idp.0"):
+            add("crlchk %d %d %d %d %s" % (version, NOW - 10, NOW + 10, NOW, exts), "crlchk:ver%d:%s" % (version, exts.split(".")[0]))
+    for this_, next_, now_, nm in ((NOW, NOW + 10, NOW, "this=now"), (NOW + 1, NOW + 10, NOW, "this=now+1"), (NOW - 10, NOW, NOW, "next=now"), (NOW - 10, NOW + 1, NOW, "next=now+1"),
+                                   (NOW - 10, -1, NOW, "next-absent"), (NOW - 10, -1, NOW + (1 << 33), "next-absent-far"), (NOW + (1 << 32) - 5, NOW + (1 << 32) + 5, NOW, "this=now+2^32"),
+                                   (NOW - 10, NOW + 10, NOW + (1 << 32), "now+2^32"), (NOW - 10, NOW + (1 << 31) + 10, NOW, "next=now+2^31"), (5, 10, (1 << 32) + 7, "now=2^32+7"),
+                                   ((1 << 32), (1 << 32) + 100, (1 << 32) + 7, "all>2^32"), (NOW, NOW + 10, 0, "now=0"), (NOW, NOW + 10, -5, "now<0")):
+        add("crlchk 1 %d %d %d crlnum.0" % (this_, next_, now_), "crlchk:window:" + nm)
+    # RevokedCertificate with entry extensions (x509_revoked_cert_to_der_ex / from_der_ex / x509_cert_revoke_to_der)
+    for serial in (b"\x01", b"\x00\x80", bytes([0x7f] * 20), b"\x00\x00\x05"):
+        for reason in (-1, 1, 9):
+            for inv in (-1, 1600000000):
+                for iss in ("-", "310b3009060355040a0c024341"):
+                    for via in (0, 1):
+                        add("revokeex %s %d %d %d %s %d" % (serial.hex(), 1650000000, reason, inv, iss, via), "revokeex:%s:exts%d:%s" % (serial_class(serial), (reason >= 0) + (inv >= 0) + (iss != "-"), "cert" if via else "serial"))
+    for kind in ("cert", "req", "crl"):
+        add("wrap %s" % kind, "wrap:" + kind)
+    # GeneralNames: every choice alone, mixed lists, IA5 rule, lookup by choice
+    for ch in range(0, 10):
+        for v in (b"\x30\x03\x02\x01\x05", b"example.org", b"a", bytes(130), b"caf\xc3\xa9"):
+            add("gnames %d:%s %d" % (ch, v.hex(), ch), "gnames:choice%d:%s" % (ch, "ia5" if all(c < 128 for c in v) else "non-ia5"))
+    for i in range(12 if not thorough else 120):
+        items = ["%d:%s" % (r.choice([1, 2, 6, 7, 8]), bytes(r.choice(b"abcdefgh.") for _ in range(r.range(1, 40))).hex()) for _ in range(r.range(1, 5))]
+        add("gnames %s %d" % (",".join(items), r.choice([1, 2, 6, 7, 8, 4])), "gnames:list:primitive-choices")
+        items2 = items + ["%d:3000" % r.choice([0, 3, 4, 5])]
+        r.shuffle(items2)
+        add("gnames %s %d" % (",".join(items2), r.choice([1, 4, 6])), "gnames:list:with-constructed-choice")
     # --- every single-bit modification of an issued object must fail verification
     step = 3 if not thorough else 1
     flips = []
@@ -429,6 +462,7 @@ def run(ctx):
         ctx.violation("correspondence:model-build", "extracted model does not build: " + log[-500:], {"kind": "correspondence", "log": log[-3000:]}, False)
         return finish(ctx)
     cases, flips = gen(ctx)
+    dump = os.environ.get("VERIF_DUMP_OPS")
     for v in (["asan", "sm2null"] if ctx.tier == "quick" else ["asan", "small", "sm2null"]):
         exe, log = core.build_harness("C15", v)
         if exe is None:
@@ -446,7 +480,10 @@ def run(ctx):
                               oracle=lambda line, a, b: oracle_flip(a))
             continue
         core.differential(ctx, cases, exe, model, variant=v)
-        core.differential(ctx, builder_order_cases(ctx, exe, v), exe, model, variant=v)
+        bo = builder_order_cases(ctx, exe, v)
+        if dump and v == "asan":
+            open(dump, "w").write("\n".join([c[0] for c in cases + bo + flips]) + "\nbuilders\nkeys\n")
+        core.differential(ctx, bo, exe, model, variant=v)
         if v == "asan":
             # x509_cert_check_crl once more, this time through the library's own HTTP client and a loopback server thread
             netexe, nlog = build_net_harness(v)
